@@ -25,7 +25,12 @@ CLAIMED = {
    "Deductive (all inputs): each switch-loop opcase and the generated OP_X_Handler satisfy the same deterministic contract (pc advance, "
    "stack effect, result value, lower stack unchanged); built-in closure and VM handler are proved against the same result expression "
    "for the table-driven operators; NEW_LIST / NEW_OBJ / NEW_MAP (later duplicate key wins) / CALL_* argument order; call0 restores "
-   "pc/stack/code; emitter capacity failures. Equality of whole programs on 4 back ends incl. host-call traces: bounded stand-in. "
+   "pc/stack/code; emitter capacity failures; the VM compiler is a post-order linearisation: for every node kind the exact sequence "
+   "of emissions compile / compileInvokeStatic / compileInvokeDynamic / emitCond and the four by-need intrinsic emitters perform "
+   "(operands first, each exactly once, in source order, then the node's own instruction with its operands; a lazy argument as a "
+   "constant thunk of the separately compiled argument; the callee looked up where the checker resolved it) is a postcondition over "
+   "an activation-local ghost log of the calls made, the dispatch through the intrinsic table being covered by a function-type "
+   "contract every table entry proves. Equality of whole programs on 4 back ends incl. host-call traces: bounded stand-in. "
    "Known finding F13 (call-threaded loop stops after 1024 instructions) is open.",
    TB + BS, TECHB),
  "C04": ("other",
@@ -47,8 +52,11 @@ CLAIMED = {
  "C06": ("other",
    "Deductive (all inputs): ghost call-sequence contracts of if / and / or (condition once, then exactly the selected thunk, nothing "
    "else), argument order of OP_CALL_BY_VALUE / BY_NEED / DYNAMIC_CALL and literal constructors in both dispatch loops, call0 frame, "
-   "JUMP / IF_TRUE semantics. Strict-argument loops of the closure compiler and the interpreter and whole-program traces: bounded "
-   "stand-in (trace equality, poisoned branches).",
+   "JUMP / IF_TRUE semantics; VM code generation: emitCond emits exactly cond, IF_TRUE, then, JUMP, else (each arm compiled once, "
+   "nothing folded away), and / or / not are emitted as the corresponding conditional, strict arguments and literal members are "
+   "compiled exactly once in source order before the call / constructor instruction, lazy arguments become thunks in argument "
+   "order (emission-sequence postconditions). Strict-argument loops of the closure compiler and the interpreter and whole-program "
+   "traces: bounded stand-in (trace equality, poisoned branches).",
    TB + BS, TECHB),
  "C07": ("other",
    "Deductive: the Callable built by (*Expr).Compile reaches the compiled closure only after envCheck has accepted the environment "
@@ -89,7 +97,9 @@ CLAIMED = {
    "stated bytes and leave the prefix unchanged, back-patch closure writes exactly two bytes and fails iff the value exceeds 16 bits, "
    "constant-pool index, every opcase advances pc by 1 + operand width and keeps sp within the stack; (*bytecode).emitCond emits "
    "cond / IF_TRUE else / then / JUMP end / else with both jumps patched to the addresses of the else arm and of the end (forward, "
-   "inside the code, on an instruction boundary), the sub-compilations being the assumed recursive contract. Stack-depth balance "
+   "inside the code, on an instruction boundary), the sub-compilations being the assumed recursive contract; every instruction is "
+   "emitted with exactly the operands its decoder reads (emission-sequence postconditions of compile and its helpers: opcode, then "
+   "constant index / 16-bit size / 8-bit argument count as the opcase contract expects). Stack-depth balance "
    "of whole compiled programs: bounded stand-in (independent abstract interpreter over the emitted bytecode).",
    TB + BS, TECHB),
  "C12": ("other",
